@@ -494,6 +494,10 @@ impl<T: Types> RaftLog<T> {
         &mut self,
         rec: &WALRecord<T>,
     ) -> Result<Segment, io::Error> {
+        // Validate before journalling: a refused record must leave no trace in
+        // the WAL, the log index or the payload cache.
+        self.state_machine.log_state.validate(rec)?;
+
         WAL::append(&mut self.wal, rec)?;
         StateMachine::apply(
             &mut self.state_machine,
